@@ -30,6 +30,7 @@ def run(ctx, chk):
     LR.rule_bounded_decrements(ctx, chk, L, "B3")
     LR.rule_rmw_only(ctx, chk, L, "B4")
     LR.rule_balance_conc(ctx, chk, L, "B5")
+    LR.rule_unanalysed_writers(ctx, chk, L, "B5")
     from ..queue import QueueAnalysis
     Q = QueueAnalysis(ctx)
     Q.rule_pop(chk, "B6", "B6", "B6")
